@@ -31,10 +31,7 @@ TRUSTED = [
     "synced_collections 1.0.1 and the copy/pickle protocol are modelled, not verified",
     "gzip framing of the persistent cache file: only the decoded mapping is compared",
 ]
-ASSUMPTIONS = ["random sequences: after job.move() the remaining shallow copies of the moved handle are not used for state "
-               "point changes (finding 7 is exercised by a fixed script and by the exhaustive words, where the moved handle "
-               "is the first of its cell)",
-               "copy.copy is taken after the handle's state point was accessed (the early-copy defect is C04's finding 2)",
+ASSUMPTIONS = ["copy.copy is taken after the handle's state point was accessed (the early-copy defect is C04's finding 2)",
                "a handle is pickled only while no shallow copy of it exists (RecursionError otherwise)",
                "values that compare == in Python but differ in type (1 / 1.0 / True) are not mixed (C04's finding 3)",
                "open_job(id=...) is only asked for ids that exist in the workspace or never existed",
@@ -54,7 +51,7 @@ def rand_sp(rng):
     return {k: rng.choice(VALS[k]) for k in sorted(ks)}
 
 
-# fixed scenarios re-deriving each known finding on the real code in every run (kind "script")
+# fixed scenarios replaying the witnesses / examples of props/C03.v on the real code in every run (kind "script")
 SCRIPTS = {
     # F2 (fixed, 5a38a4a): foreign directory names next to real jobs never count as jobs
     "exact-id-names": [["NewSession", "A"], ["OpenSp", 0, typed({"a": 0})], ["Init", 0, False],
@@ -69,9 +66,9 @@ SCRIPTS = {
                        ["OpenId", 1, "9bfd29df07674bc4aa960cf661b5acd2"], ["OpenId", 1, "42b7"],
                        ["OpenId", 1, "9bfd29df07674bc4aa960cf661b5acd2.bak"], ["UpdateCache", 1], ["Check", 1],
                        ["Edit", 0, [], ["set", "b", typed(0)]], ["Remove", 1]],
-    "dirty-after-conflict": [["NewSession", "A"], ["OpenSp", 0, typed({"a": 0})], ["Init", 0, False],
+    "rollback-after-conflict": [["NewSession", "A"], ["OpenSp", 0, typed({"a": 0})], ["Init", 0, False],
                              ["OpenSp", 0, typed({"a": 1})], ["Init", 1, False],
-                             ["Edit", 0, [], ["set", "a", typed(1)]], ["Edit", 0, [], ["set", "b", typed(0)]]],
+                             ["Edit", 0, [], ["set", "a", typed(1)]], ["Sp", 0], ["Edit", 0, [], ["set", "b", typed(0)]]],
     "stale-document": [["NewSession", "A"], ["OpenSp", 0, typed({"a": 0})], ["Init", 0, False],
                        ["DocSet", 0, "p", typed(1)], ["OpenSp", 0, typed({"a": 0})], ["Doc", 1],
                        ["Remove", 0], ["Init", 0, False], ["DocSet", 1, "q", typed("v")]],
@@ -83,9 +80,9 @@ SCRIPTS = {
                       ["Edit", 1, [], ["set", "b", typed(0)]]],
     "lock-registry-deepcopy": [["NewSession", "A"], ["OpenSp", 0, typed({"d": [7]})], ["Init", 0, False],
                                ["DeepCopy", 0], ["Edit", 1, [], ["del", "d"]], ["Edit", 0, [], ["del", "d"]]],
-    "lazy-handle-gone": [["NewSession", "A"], ["OpenSp", 0, typed({"a": 0})], ["Init", 0, False], ["NewSession", "A"],
+    "lazy-handle-gone-no-effect": [["NewSession", "A"], ["OpenSp", 0, typed({"a": 0})], ["Init", 0, False], ["NewSession", "A"],
                          ["OpenId", 1, "9bfd29df07674bc4aa960cf661b5acd2"], ["Remove", 0], ["Init", 1, False]],
-    "moved-handle-copy": [["NewSession", "A"], ["NewSession", "B"], ["OpenSp", 0, typed({"a": 0})], ["Init", 0, False],
+    "moved-handle-copy-independent": [["NewSession", "A"], ["NewSession", "B"], ["OpenSp", 0, typed({"a": 0})], ["Init", 0, False],
                           ["Sp", 0], ["Copy", 0], ["Move", 0, 1], ["Init", 1, False],
                           ["Edit", 1, [], ["set", "a", typed(2)]]],
     "lifecycle-clean": [["NewSession", "A"], ["NewSession", "B"], ["OpenSp", 0, typed({"a": 0, "c": [1, 2]})],
@@ -165,8 +162,6 @@ def random_ops(desc, W):
     def sp_safe(i):
         """a state point change through the handle will find its lock and start from clean data"""
         j = W.handles[i]
-        if i in dirty or i in orphaned:
-            return False
         if j._statepoint_requires_init:
             return True
         return j._statepoint.filename in type(j._statepoint)._locks
@@ -176,12 +171,6 @@ def random_ops(desc, W):
         if n == 0:
             return None
         cands = list(range(max(0, n - 4), n)) if rng.random() < 0.7 else list(range(n))
-        if pred is sp_safe:
-            # random sequences never change the state point through a cell one of whose handles was moved away
-            # (finding 7; the fixed scripts and the exhaustive words do exercise it)
-            cands = [i for i in cands if i not in orphaned] or [i for i in range(n) if i not in orphaned]
-            if not cands:
-                return None
         if pred is not None and rng.random() < 0.92:
             good = [i for i in cands if pred(i)] or [i for i in range(n) if pred(i)]
             if good:
